@@ -171,9 +171,10 @@ pub const PALETTE: &[Pal] = &[
     p("(lambda () 1)", "proc:closure", Proc, false, None),
     p("(lambda (x y) x)", "proc:closure", Proc, false, None),
     p("(lambda args args)", "proc:variadic", Proc, true, None),
-    // a continuation captured by an earlier evaluation, and a fresh one
+    // a continuation captured by an earlier evaluation. (A fresh one, `(call/cc (lambda (k) k))`,
+    // is deliberately absent: two of them in one call can re-enter each other forever, which is a
+    // diverging *program* — `(apply k1 k2 '())` — and not the library's fault.)
     p("c06-k", "cont", Cont, true, None),
-    p("(call/cc (lambda (k) k))", "cont", Cont, false, None),
     // macros as data
     p("(vector-ref (vector let) 0)", "macro", Macro, true, None),
     p("(car (list cond))", "macro", Macro, false, None),
@@ -403,6 +404,11 @@ pub fn feature(proc: &str, args: &[usize]) -> Option<String> {
         "vector-copy!" if n >= 3 && (cls(0) == "vec:empty" || cls(2) == "vec:empty") => Some("vec:empty".into()),
         "string-fill!" if n == 3 && grp(0) == Some(Str) && matches!((int(2), len(0)), (Some(s), Some(l)) if s > l as i128) => {
             Some("start>length".into())
+        }
+        "string-fill!"
+            if n == 4 && grp(0) == Some(Str) && matches!((int(2), int(3), len(0)), (Some(s), Some(e), Some(l)) if s == l as i128 && e > ALLOC_BOUND) =>
+        {
+            Some("start=length,end>1e6".into())
         }
         "string-ref" | "string-set!" | "string-copy" | "string->list" | "string-fill!"
             if grp(0) == Some(Str) && n >= (if proc == "string-fill!" { 3 } else { 2 }) =>
